@@ -1,9 +1,112 @@
 import WM.Proto
-namespace WM.Drv.C03
-open WM.Proto
+import WM.Model.FSReader
+import WM.Drv.C02
+/-!
+Protocol handler of family `c03` (readers).  Name tables, TOCs and directories as in `c02`.
 
-/-- Protocol handler of family `c03` (requests arrive without the family token). -/
+  leaf   ::= ( sidIdx (fileIdx*) (deleted*) gen|- schema ((fileIdx inode)*) )
+  reader ::= - | (e schema) | (s leaf) | (m gen|- leaf*)
+  c03 eager (name*) (name*)                          -> 1 | 0
+  c03 mkreader tab fs schema gen (seg*) reader       -> reader' closed(sid-list) | err
+  c03 refresh ix tab fs reader                       -> reader' | err
+  c03 uptodate ix (name*) gen|-                      -> 1 | 0
+  c03 mrun ix tab fs retries (r | event)*            -> done gen (name*) | start n | opening .. | failed ..
+-/
+namespace WM.Drv.C03
+open WM.Proto WM.FS WM.Drv.C02
+
+def handle? (tab : Tab) : SExp → Option (Name × Nat)
+  | .list [f, i] => do some (← idx? tab f, ← i.nat?)
+  | _ => none
+
+def leaf? (tab : Tab) : SExp → Option SegReader
+  | .list [s, fs, ds, g, sc, hs] => do
+    let sid ← idx? tab s
+    let files ← fs.listOf? (idx? tab)
+    let del ← ds.natList?
+    let gen ← g.opt? SExp.nat?
+    let schema ← sc.nat?
+    let handles ← hs.listOf? (handle? tab)
+    some ⟨⟨sid, files, del⟩, gen, schema, handles⟩
+  | _ => none
+
+def reader? (tab : Tab) : SExp → Option (Option Reader)
+  | .atom "-" => some none
+  | .list [.atom "e", sc] => sc.nat?.map fun s => some (.empty s)
+  | .list [.atom "s", l] => (leaf? tab l).map fun r => some (.single r)
+  | .list (.atom "m" :: g :: ls) => do
+    let gen ← g.opt? SExp.nat?
+    let rs ← ls.mapM (leaf? tab)
+    some (some (.multi rs gen))
+  | _ => none
+
+def showLeaf (r : SegReader) : String :=
+  "(" ++ showName r.seg.sid ++ " " ++ showNatList r.seg.deleted ++ " " ++ showOpt toString r.gen ++ " " ++
+    toString r.schema ++ " " ++ showNatList (r.handles.map (·.2)) ++ ")"
+
+def showReader : Reader → String
+  | .empty s => s!"(e {s})"
+  | .single r => "(s " ++ showLeaf r ++ ")"
+  | .multi rs g => "(m " ++ showOpt toString g ++ " " ++ " ".intercalate (rs.map showLeaf) ++ ")"
+
+def showRErr : RErr → String
+  | .io => "err io"
+  | .toc .emptyIndex => "err empty"
+  | .toc .ioError => "err tocio"
+  | .toc .badToc => "err badtoc"
+
+/-- files a W3 `SegmentReader` opens in its constructor: the compound file, or the term index and
+    the postings file of a loose segment -/
+def eagerExt (n : Name) : Bool :=
+  let r := n.reverse
+  r.take 4 == ['g', 'e', 's', '.'] || r.take 4 == ['m', 'r', 't', '.'] || r.take 4 == ['t', 's', 'p', '.']
+
+def mstep? (tab : Tab) : SExp → Option MStep
+  | .atom "r" => some .r
+  | e => (event? tab e).map .w
+
+def showROpen : ROpen → String
+  | .start n => s!"start {n}"
+  | .opening n t todo _ => s!"opening {n} {t.gen} {todo.length}"
+  | .done t got => s!"done {t.gen} " ++ showList (fun (p : Name × Nat) => showName p.1) got
+  | .failed e => "failed " ++ showRErr e
+
 def handle : List SExp → String
+  | [.atom "mrun", ix, tb, fs0, n, steps] =>
+    match name? ix, tab? tb with
+    | some i, some tab =>
+      match fs? tab fs0, n.nat?, steps.listOf? (mstep? tab) with
+      | some fs, some k, some ms => showROpen (mrun eagerExt i (fs, .start k) ms).2
+      | _, _, _ => "bad-op"
+    | _, _ => "bad-op"
+  | [.atom "eager", c, l] =>
+    match c.listOf? name?, l.listOf? name? with
+    | some cs, some ls => showBool (EagerTrace cs ls)
+    | _, _ => "bad-op"
+  | [.atom "mkreader", tb, fs0, sc, g, segs, rd] =>
+    match tab? tb with
+    | some tab =>
+      match fs? tab fs0, sc.nat?, g.nat?, segs.listOf? (seg? tab), reader? tab rd with
+      | some fs, some schema, some gen, some ss, some reuse =>
+        match mkReader (fun _ => true) fs schema ss gen reuse with
+        | .ok (r, closed) => showReader r ++ " " ++ showList (fun (x : SegReader) => showName x.seg.sid) closed
+        | .error e => showRErr e
+      | _, _, _, _, _ => "bad-op"
+    | none => "bad-op"
+  | [.atom "refresh", ix, tb, fs0, rd] =>
+    match name? ix, tab? tb with
+    | some i, some tab =>
+      match fs? tab fs0, reader? tab rd with
+      | some fs, some (some r) =>
+        match refresh (fun _ => true) i fs r with
+        | .ok r' => showReader r' ++ " " ++ showBool (upToDate i fs r')
+        | .error e => showRErr e
+      | _, _ => "bad-op"
+    | _, _ => "bad-op"
+  | [.atom "uptodate", ix, ns, g] =>
+    match name? ix, ns.listOf? name?, g.opt? SExp.nat? with
+    | some i, some l, some gen => showBool (genEq (latestGenOf i l) gen)
+    | _, _, _ => "bad-op"
   | _ => "bad-op"
 
 end WM.Drv.C03
